@@ -272,6 +272,34 @@ def main(tier):
         ism1 = lambda z: z.get("k") == "Bin" and z["op"] == "-" and isn(z["a"]) and z["b"].get("k") == "Int" and int(z["b"]["v"]) == 1
         return (isn(x) and ism1(y)) or (isn(y) and ism1(x))
 
+    syntactic_flag = canonical_flag
+    flag_cache = {}
+
+    def canonical_flag(e):
+        """the assigned expression IS the power-of-two predicate of ntheta_: decided by evaluating it (helper functions
+        included) for ntheta_ = 1..130 and some larger values, not by its spelling"""
+        if syntactic_flag(e):
+            return True
+        if id(e) in flag_cache:
+            return flag_cache[id(e)]
+        from gmg.interp import Frame
+        ok = True
+        try:
+            for n in list(range(1, 131)) + [255, 256, 257, 1000, 1024, 4095, 4096, 65536, 65537]:
+                dom_ = GridDomain(prog)
+                it_ = Interp(prog, dom_)
+                o = Obj("PolarGrid")
+                o.f["ntheta_"] = Cell(n, "ntheta_")
+                fr_ = Frame({"qn": "PolarGrid::<flag expression>", "params": [], "ret": "bool"}, o)
+                v = it_.rvalue(e, fr_)
+                if not isinstance(v, (bool, int)) or bool(v) != ((n & (n - 1)) == 0):
+                    ok = False
+                    break
+        except Exception:
+            ok = False      # reads something else than ntheta_, or is outside the interpreter: not shown to be the predicate
+        flag_cache[id(e)] = ok
+        return ok
+
     n_writers = 0
     for qn, fns in prog.functions.items():
         if not qn.startswith("PolarGrid::"):
@@ -302,7 +330,7 @@ def main(tier):
                              "%s assigns ntheta_ but does not recompute is_ntheta_PowerOfTwo_ afterwards: wrapThetaIndex takes the wrong path" % qn)
             elif not all(ok for _, ok, _ in after):
                 ck.violation("R-C17-3", "flag:%s:expr" % qn.split("::")[-1], ir.locstr(after[0][2]),
-                             "%s recomputes is_ntheta_PowerOfTwo_ with an expression other than (ntheta_ & (ntheta_ - 1)) == 0, or conditionally" % qn)
+                             "%s recomputes is_ntheta_PowerOfTwo_ with an expression that is not the power-of-two predicate of ntheta_ (evaluated for ntheta_ = 1..130 and larger values), or conditionally" % qn)
             else:
                 ck.ok("R-C17-3", key)
     if n_writers < 4:
